@@ -92,9 +92,7 @@ package utils
 //@ ensures result == d
 
 //@ func (time.Duration).Seconds
-//@ trusted "stdlib: float64 seconds = sec + nsec/1e9 (rounding ignored outside the float model)"
-//@ pure
-//@ ensures result == real(d) / 1000000000.0
+//@ inline
 
 // ---- civil calendar (assumptions about package time, used by C30/C08/C31) ----
 // civilYearStart(y, l): abs of 1 January 00:00 of year y in location l; civilYear(a, l): the civil year of
